@@ -209,6 +209,8 @@ def model_lines(case: dict, capture: dict) -> List[str]:
         return lines
     for ins, obs in capture.get("setorders", []):
         lines.append(f"setorder {lst(ins)} {lst(obs)}")
+    if case["family"] == "env":  # agents, states and items are what the real run produced
+        case = dict(case, **capture["observed"])
     for a in case["agents"]:
         lines.append(f"agent {a['ref']}")
         for c in a["comps"]:
@@ -321,6 +323,8 @@ class GraphTap:
 
 def run_impl(case: dict) -> Tuple[List[str], dict]:
     """Answers of the implementation for the compared lines of `model_lines`, plus the capture the model needs."""
+    if case["family"] == "env":
+        return run_env(case)
     if case["family"] == "graph":
         from primaite.game.science import graph_has_cycle, topological_sort
         g = {k: list(nb) for k, nb in case["graph"]}
@@ -396,7 +400,7 @@ def has_cycle_ref(graph: Dict[str, List[str]]) -> bool:
 
 def oracle(case: dict, impl: List[str], capture: dict) -> Optional[str]:
     """C10's own oracle on the implementation's behaviour, independent of Lean. Returns a description of a failure."""
-    if case["family"] != "game":
+    if case["family"] not in ("game", "env"):
         return None
     graph = capture.get("graph")
     if graph is None:
@@ -434,3 +438,170 @@ def all_arc_sets(n: int, self_loops: bool = False):
     arcs = [(u, v) for u in range(n) for v in range(n) if self_loops or u != v]
     for mask in range(1 << len(arcs)):
         yield [a for i, a in enumerate(arcs) if mask >> i & 1]
+
+
+# ------------------------------------------------------------------------------------------ env family (real pipeline)
+ENV_WEIGHTS = ["1", "1/2", "1/4", "3/4", "-1/2", "2", "1/8", "3/8"]
+TYPE_KIND = {v: k for k, v in KIND_TYPE.items()}
+
+
+def gen_env_case(rng: Rng, n_steps: int) -> dict:
+    return {"family": "env", "seed": rng.below(1 << 30), "steps": [], "n_steps": n_steps, "agents": []}
+
+
+def _tok(x) -> str:
+    s = str(x)
+    for ch in " ,;:":
+        s = s.replace(ch, "_")
+    return s or "_"
+
+
+def _env_cfg(case: dict):
+    """UC2 (`data_manipulation.yaml`) with dyadic weights, random sticky flags, extra components on the defender and a
+    shuffled agent declaration order. Returns (config, agents description as in the `game` family)."""
+    import yaml
+    from harness.lib.core import SRC
+    rng = Rng(case["seed"])
+    cfg = yaml.safe_load((SRC / "config" / "_package_data" / "data_manipulation.yaml").read_text())
+    cfg["io_settings"] = {"save_logs": False, "save_agent_actions": False, "save_step_metadata": False, "save_pcap_logs": False,
+                          "save_sys_logs": False, "save_agent_logs": False}
+    for a in cfg["agents"]:
+        rf = a.setdefault("reward_function", {}).setdefault("reward_components", [])
+        if a["ref"] == "defender":
+            rf.append({"type": "web-server-404-penalty", "weight": 1.0,
+                       "options": {"node_hostname": "web_server", "service_name": "web-server"}})
+            rf.append({"type": "action-penalty", "weight": 1.0, "options": {"action_penalty": -0.25, "do_nothing_penalty": 0.125}})
+            rf.append({"type": "webpage-unavailable-penalty", "weight": 1.0, "options": {"node_hostname": "client_1"}})
+            rf[:] = rng.shuffle(rf)
+        for c in rf:
+            c["weight"] = float(frac(rng.choice(ENV_WEIGHTS)))
+            if c["type"] in ("web-server-404-penalty", "webpage-unavailable-penalty", "green-admin-database-unreachable-penalty"):
+                c.setdefault("options", {})["sticky"] = rng.chance(1, 2)
+    cfg["agents"] = rng.shuffle(cfg["agents"])
+    agents = []
+    for a in cfg["agents"]:
+        comps = []
+        for c in a.get("reward_function", {}).get("reward_components", []):
+            o = c.get("options", {})
+            k = TYPE_KIND[c["type"]]
+            d = {"kind": k, "weight": show(Fraction(c.get("weight", 1.0)))}
+            if k == "file":
+                d.update(node=o["node_hostname"], folder=o["folder_name"], file=o["file_name"])
+            elif k == "web404":
+                d.update(node=o["node_hostname"], service=o["service_name"], sticky=o.get("sticky", True))
+            elif k in ("webpage", "greendb"):
+                d.update(node=o.get("node_hostname", ""), sticky=o.get("sticky", True))
+            elif k == "shared":
+                d.update(agent=o["agent_name"])
+            elif k == "actionpenalty":
+                d.update(ap=show(Fraction(o.get("action_penalty", -1.0))), dn=show(Fraction(o.get("do_nothing_penalty", 0.0))))
+            comps.append(d)
+        agents.append({"ref": a["ref"], "comps": comps})
+    return cfg, agents
+
+
+def view_of_state(state: dict, agents: List[dict]) -> dict:
+    """What the configured components read from a real `describe_state()` dictionary (independent re-implementation of
+    the nested lookups)."""
+    st = {"files": [], "services": [], "browsers": []}
+    nodes = state.get("network", {}).get("nodes", {})
+    seen = set()
+    for a in agents:
+        for c in a["comps"]:
+            if c["kind"] == "file":
+                key = ("f", c["node"], c["folder"], c["file"])
+                if key in seen:
+                    continue
+                seen.add(key)
+                try:
+                    h = nodes[c["node"]]["file_system"]["folders"][c["folder"]]["files"][c["file"]]["health_status"]
+                    st["files"].append([c["node"], c["folder"], c["file"], int(h)])
+                except KeyError:
+                    pass
+            elif c["kind"] == "web404":
+                key = ("s", c["node"], c["service"])
+                if key in seen:
+                    continue
+                seen.add(key)
+                try:
+                    sv = nodes[c["node"]]["services"][c["service"]]
+                    codes = sv.get("response_codes_this_timestep") or []
+                    st["services"].append([c["node"], c["service"], [int(getattr(x, "value", x)) for x in codes], "list"])
+                except KeyError:
+                    pass
+            elif c["kind"] == "webpage":
+                key = ("b", c["node"])
+                if key in seen:
+                    continue
+                seen.add(key)
+                try:
+                    hist = nodes[c["node"]]["applications"]["web-browser"]["history"]
+                    outs = []
+                    for h in hist:
+                        o = h["outcome"]
+                        outs.append("P" if o == "PENDING" else (str(o) if isinstance(o, int) and not isinstance(o, bool) else "X"))
+                    st["browsers"].append([c["node"], outs])
+                except KeyError:
+                    pass
+    return st
+
+
+def run_env(case: dict) -> Tuple[List[str], dict]:
+    import random
+    import shutil
+    import tempfile
+    from pathlib import Path
+    import numpy as np
+    from primaite import PRIMAITE_PATHS
+    import primaite.game.game as G
+    from primaite.session.environment import PrimaiteGymEnv
+    import logging
+    cfg, agents = _env_cfg(case)
+    logging.disable(logging.CRITICAL)
+    random.seed(case["seed"])
+    np.random.seed(case["seed"] % (1 << 31))
+    tmp = Path(tempfile.mkdtemp(prefix="c10env"))
+    old_path = PRIMAITE_PATHS.user_sessions_path
+    PRIMAITE_PATHS.user_sessions_path = tmp
+    states: List[dict] = []
+    orig_update = G.PrimaiteGame.update_agents
+
+    def tapped(self, state):
+        states.append(state)
+        return orig_update(self, state)
+    G.PrimaiteGame.update_agents = tapped
+    out: List[str] = []
+    steps = []
+    capture: Dict[str, Any] = {"setorders": []}
+    try:
+        with GraphTap() as tap:
+            env = PrimaiteGymEnv(env_config=cfg)
+        game = env.game
+        graph = tap.graphs[0]
+        capture["graph"] = {k: list(v) for k, v in graph.items()}
+        for a in agents:
+            capture["setorders"].append(([c["agent"] for c in a["comps"] if c["kind"] == "shared"], list(graph[a["ref"]])))
+        out.append("ok order=" + ",".join(game._reward_calculation_order) + " " + show_agents(game))
+        env.action_space.seed(case["seed"])
+        for _ in range(case["n_steps"]):
+            n_before = len(states)
+            _obs, rew, _term, _trunc, _info = env.step(env.action_space.sample())
+            assert len(states) == n_before + 1, "update_agents must run exactly once per step"
+            if Fraction(rew) != Fraction(env.agent.reward_function.current_reward):
+                out.append("env.step returned a reward different from the agent's current_reward")
+            items = {}
+            for ref, ag in game.agents.items():
+                h = ag.history[-1]
+                items[ref] = {"action": _tok(h.action), "request": [_tok(x) for x in h.request], "status": h.response.status}
+            steps.append({"state": view_of_state(states[-1], agents), "items": items})
+            out.append("ok " + show_agents(game))
+            out.append(show_mem(game))
+        capture["game"] = game
+        env.close()
+    finally:
+        logging.disable(logging.NOTSET)
+        G.PrimaiteGame.update_agents = orig_update
+        PRIMAITE_PATHS.user_sessions_path = old_path
+        shutil.rmtree(tmp, ignore_errors=True)
+    capture["observed"] = {"agents": agents, "steps": steps}
+    return out, capture
